@@ -35,10 +35,10 @@ def _init(cicada):
         f.write("# definitions only\nfunction vpfn {\n    vp_argv infn\n}\n")
 
 
-def model(prog):
+def model(prog, st0=0):
     """prog: list of (op, operand); op of element 0 is None.
     operand: ('s', code, marker, decoys) | ('q',)  ->  (expected events, final status)"""
-    st = 0
+    st = st0
     ev = []
     ran = []
     for i, (op, opd) in enumerate(prog):
@@ -56,6 +56,9 @@ def model(prog):
             # an operand that is killed by a signal: status 128+signal
             ev.append(("vp_status", ["sig%d" % opd[1], opd[2]]))
             st = 128 + opd[1]
+        elif opd[0] == "f":
+            # a builtin that fails without running a program (cd to something that exists but is no directory, or is missing)
+            st = 1
         else:
             # a command that succeeds without running a program (assignment-only, builtin): no event, status 0
             st = 0
@@ -76,6 +79,8 @@ def render(prog, spacing):
                                               "${?}" if len(opd) > 1 and opd[1] == "brace" else "$?"))
         elif opd[0] == "k":
             parts.append("vp_status sig%d %s" % (opd[1], opd[2]))
+        elif opd[0] == "f":
+            parts.append({"cd-file": "cd defs.sh", "cd-missing": "cd /vp-no-such-dir"}[opd[1]])
         else:
             parts.append(SILENT[opd[1]] % {"i": i})
     return "".join(parts)
@@ -85,30 +90,61 @@ def judge(case):
     prog, mode, spacing = case["prog"], case["mode"], case["spacing"]
     prog = [(op, tuple(o) if not isinstance(o, tuple) else o) for op, o in prog]
     line = render(prog, spacing)
-    exp_ev, exp_st, ran = model(prog)
+    exp_ev, exp_st, ran = model(prog, 1 if mode == "script-in-else" else 0)
     sb = _sb
     sb.reset_log()
+    pre, post, text = [], [], None
     if mode == "c":
         r = run_cicada(sb, ["-c", line])
     else:
+        # the list as the last thing a script runs: alone, or as the body of the taken branch of an `if`, or as the body of
+        # an `if` that ends a function called as the first operand of a list of its own (the status of the call decides
+        # which side of that list runs)
+        if mode == "script-in-if":
+            text = "if vp_status 0 T0; then\n    %s\nfi\n" % line
+            pre = [("vp_status", ["0", "T0"])]
+        elif mode == "script-in-else":
+            text = "if vp_status 1 T0\n    vp_status 0 NEVER\nelse\n    %s\nfi\n" % line
+            pre = [("vp_status", ["1", "T0"])]
+        elif mode == "function-in-list":
+            text = ("function vf {\n    if vp_status 0 T0; then\n        %s\n    fi\n}\n"
+                    "vf && vp_status 0 AND || vp_status 4 OR\n" % line)
+            pre = [("vp_status", ["0", "T0"])]
+            post = [("vp_status", ["0", "AND"])] if exp_st == 0 else [("vp_status", ["4", "OR"])]
+        else:
+            text = line + ("\n" if mode == "script" else "")
         path = os.path.join(sb.root, "prog.sh")
         with open(path, "w") as f:
-            f.write(line + ("\n" if mode == "script" else ""))
+            f.write(text)
         r = run_cicada(sb, [path])
     recs = sb.records()
     obs = [(x["name"], x["argv"][1:]) for x in recs if x.get("kind") == "start"]
-    res = {"line": line, "mode": mode, "rc": r.rc, "observed": obs, "expected": exp_ev, "expected_rc": exp_st}
+    res = {"line": line, "mode": mode, "rc": r.rc, "observed": obs, "expected": pre + exp_ev + post, "expected_rc": exp_st}
+    if text is not None and text.rstrip("\n") != line:
+        res["script"] = text
+    if post:
+        exp_st = res["expected_rc"] = 0 if exp_st == 0 else 4
     if r.timed_out:
         return ("inconclusive", "timeout", res)
     c = crashed(r)
     if c:
         return ("violated", "C03:shell-crash:" + c.split(" ")[0], res)
+    if (pre or post) and not r.timed_out and not crashed(r):
+        if obs[:len(pre)] != pre:
+            return ("violated", "C03:block-around-the-list:head-event-differs:mode=%s" % mode, res)
+        obs = obs[len(pre):]
+        if post:
+            if obs[-1:] != post:
+                if obs[:len(exp_ev)] == exp_ev:
+                    return ("violated", "C03:status-of-a-function-call-in-a-list-is-not-that-of-its-last-pipeline", res)
+            else:
+                obs = obs[:-1]
     if obs != exp_ev:
         # classify by the first operand whose run/skip decision differs
         obs_names = [o[1][1] if o[0] == "vp_status" else o[1][0] for o in obs]
         k = 0
         for i, (op, opd) in enumerate(prog):
-            if opd[0] == "z":
+            if opd[0] in ("z", "f"):
                 continue        # leaves no event of its own
             name = opd[2] if opd[0] in ("s", "k") else "Q%d" % i
             did = k < len(obs_names) and obs_names[k] == name
@@ -125,7 +161,7 @@ def judge(case):
                 k += 1
         return ("violated", "C03:extra-or-reordered-events", res)
     if r.rc != exp_st:
-        return ("violated", "C03:exit-status-differs:mode=%s" % ("c" if mode == "c" else "script"), res)
+        return ("violated", "C03:exit-status-differs:mode=%s" % ("c" if mode == "c" else "script" if mode in ("script", "script-noeol") else mode), res)
     return ("held", None, res)
 
 
@@ -155,8 +191,10 @@ def gen_cases(tier, seed):
             r = rng.random()
             if r < 0.3:
                 opd = ("q", rng.choice(["plain", "plain", "brace"]), tuple(rng.choice(DECOYS) for _ in range(rng.choice([0, 0, 1, 2]))))
-            elif r < 0.42:
+            elif r < 0.39:
                 opd = ("z", rng.choice(sorted(SILENT)))
+            elif r < 0.42:
+                opd = ("f", rng.choice(["cd-file", "cd-missing"]))
             elif r < 0.5:
                 opd = ("k", rng.choice([15, 9, 1, 10]), "m%d" % i)
             else:
@@ -164,7 +202,7 @@ def gen_cases(tier, seed):
                 opd = ("s", rng.choice([0, 0, 1, 2, 7, 127, 255]), "m%d" % i, dec)
             prog.append((op, opd))
         spacing = [rng.choice([(" ", " "), ("", ""), ("  ", " "), (" ", "")]) for _ in range(3)]
-        mode = rng.choice(["c", "c", "script", "script-noeol"])
+        mode = rng.choice(["c", "c", "c", "script", "script", "script-noeol", "script-in-if", "script-in-else", "function-in-list"])
         # (script lines used to be re-rendered before list splitting, which mangled `a||b` and backslash
         # decoys; since the C16 repair the script entry gets the same spacings and decoys as -c)
         cases.append({"prog": prog, "mode": mode, "spacing": spacing, "class": "random"})
@@ -185,8 +223,8 @@ def run(tier, seed):
     rep.rule = ("all programs p1 op .. pn, n<=6, codes {0,1}, ops {; && ||} exhaustively via -c "
                 "(and via script files, sampled in quick / all in thorough); random programs n<=12 with "
                 "codes {0,1,2,7,127,255}, quoted/escaped decoy operators (ASCII and multi-byte) as arguments, $? probes and operands "
-                "that succeed without running a program (assignment-only, export, cd ., alias definition) and operands killed by a signal (status 128+n), "
-                "varied spacing, via -c and script.  Non-trivial = has at least one operator; distinct by "
+                "that succeed without running a program (assignment-only, export, cd ., alias definition), builtins that fail without running one (cd to a file, to a missing directory) and operands killed by a signal (status 128+n), "
+                "varied spacing, via -c and script, and in scripts also as the body of the taken `if` / `else` branch and as the end of a function called inside a list of its own.  Non-trivial = has at least one operator; distinct by "
                 "(program, mode, spacing).")
     rep.assumptions = ["helper programs log atomically to an O_APPEND file; file order = execution order "
                        "for sequentially executed foreground commands"]
